@@ -150,12 +150,25 @@ func refDigest(m ref.Tx, s int, ht int) []byte {
 // the model (the engine records the spent output on the transaction it is
 // given, so it never sees an object shared with anything else).
 func verify(m ref.Tx, s int, ht int, afterGenesis bool) error {
+	return verifyCarrying(m, s, ht, afterGenesis, nil)
+}
+
+// verifyCarrying is verify, except that when carry is non-nil the transaction object
+// handed to the engine still carries that (signing-time) spent-output data on the
+// checked input - the in-memory object a wallet has just signed - while the spent
+// output passed to WithTx is the one recorded in the model m. The statement says the
+// engine records the spent output's value and script on the checked input, so what
+// the object carried before must not matter.
+func verifyCarrying(m ref.Tx, s int, ht int, afterGenesis bool, carry *ref.In) error {
 	// The transaction handed to the engine carries no spent-output data of its own
 	// (as a verifier holding the raw transaction would have it): the engine is
 	// given the spent output separately and documents that it records it.
 	bare := cloneModel(m)
 	for i := range bare.In {
 		bare.In[i].PrevScript, bare.In[i].PrevNil, bare.In[i].PrevSats = nil, true, 0
+	}
+	if carry != nil {
+		bare.In[s].PrevScript, bare.In[s].PrevNil, bare.In[s].PrevSats = append(pbt.Hex{}, carry.PrevScript...), false, carry.PrevSats
 	}
 	tx := ref.ToLib(bare)
 	prev := &bt.Output{Satoshis: m.In[s].PrevSats, LockingScript: bscript.NewFromBytes(append([]byte{}, m.In[s].PrevScript...))}
@@ -372,6 +385,10 @@ func check(ctx *pbt.Ctx, c Case) error {
 
 	// ---- part 1: the interpreter accepts every input that was signed
 	for _, i := range signedIdx {
+		own := sm.In[i]
+		if verr := verifyCarrying(sm, i, ht, c.AfterGenesis, &own); verr != nil {
+			return fmt.Errorf("input %d signed via %s with %s is rejected when the signed in-memory object is verified: %v", i, c.Path, typeName(ht), verr)
+		}
 		if verr := verify(sm, i, ht, c.AfterGenesis); verr != nil {
 			return fmt.Errorf("input %d signed via %s with %s (spending %s, %s, %d inputs, %d outputs) is rejected by the interpreter: %v",
 				i, c.Path, typeName(ht), kind, era, len(sm.In), len(sm.Out), verr)
@@ -412,6 +429,16 @@ func check(ctx *pbt.Ctx, c Case) error {
 				want, mu.class, mu.at, typeName(ht), s, len(sm.In), len(sm.Out), changed)
 		}
 		verr := verify(mu.m, mu.s, ht, c.AfterGenesis)
+		if mu.class == "spent_value" || mu.class == "spent_script" {
+			// same mutation, but the object handed to the engine is the one that was signed
+			// (it still carries the original spent output): the verdict must not depend on it
+			orig := sm.In[s]
+			verr2 := verifyCarrying(mu.m, mu.s, ht, c.AfterGenesis, &orig)
+			if (verr == nil) != (verr2 == nil) {
+				return fmt.Errorf("%s, mutation %s of the spent output: a bare transaction object gives %v, the object that still carries the signing-time spent output gives %v (input %d, %s, %s)",
+					typeName(ht), mu.class, verr, verr2, s, kind, era)
+			}
+		}
 		mutations.Add(1)
 		switch {
 		case want && verr == nil:
